@@ -10,7 +10,7 @@ import (
 func TestCount(t *testing.T) {
 	for _, th := range []bool{false, true} {
 		total := 0
-		for _, f := range append(families.All(th), families.Deep(th)...) {
+		for _, f := range append(append(families.All(th), families.Deep(th)...), families.HTTPLevel(th)...) {
 			fmt.Printf("thorough=%v %-28s cases=%d\n", th, f.Name, len(f.Cases))
 			total += len(f.Cases)
 		}
